@@ -15,7 +15,9 @@ fn sh(cmd: &mut Command) -> (Option<i32>, String) {
 }
 
 pub fn run(cfg: &Cfg, stats: &mut Stats) {
-    tsan(cfg, stats);
+    if cfg.tier == Tier::Thorough {
+        tsan(cfg, stats);
+    }
     miri(cfg, stats);
 }
 
@@ -112,7 +114,8 @@ fn tsan(cfg: &Cfg, stats: &mut Stats) {
     }
 }
 
-fn miri(_cfg: &Cfg, stats: &mut Stats) {
+fn miri(cfg: &Cfg, stats: &mut Stats) {
+    let seeds = format!("-Zmiri-many-seeds=0..{}", cfg.tier.pick(4, 16));
     let root = crate::core::verif_root();
     let dir = root.join("miri-alloc");
     let dir = dir.as_path();
@@ -123,10 +126,11 @@ fn miri(_cfg: &Cfg, stats: &mut Stats) {
     let (code, out) = sh(Command::new("cargo")
         .args(["+nightly", "miri", "run", "--offline", "--target-dir", root.join("target/miri").to_str().unwrap_or("/verif/target/miri")])
         .current_dir(dir)
-        .env("MIRIFLAGS", "-Zmiri-many-seeds=0..16")
+        .env("MIRIFLAGS", &seeds)
         .env("CARGO_NET_OFFLINE", "true"));
     let ok_lines = out.lines().filter(|l| l.starts_with("allocators ok")).count() as u64;
     stats.add("miri_seeds_clean", ok_lines);
+    stats.cover("sanitizers_run", "miri (allocator identity race, zydeco-utils)");
     stats.evaluations += ok_lines;
     if code == Some(0) {
         return;
